@@ -274,21 +274,17 @@ def decodes : StdoutKind → Bool
 /-- `RequestError.UnmarshalJSON`: "incomplete json" iff code, message and metadata are all absent -/
 def errorObjectComplete (i : Input) : Bool := i.errCode != "" || i.errMessage || i.errMetadata
 
-/-- one condition of `validate` (by its source text): does it fire on `m`? -/
-def checkFires (m : Meta) : String → Option Bool
-  | "metadata.Name==\"\"" => some (m.name == "")
-  | "metadata.Description==\"\"" => some (m.description == "")
-  | "metadata.Version==\"\"" => some (m.version == "")
-  | "metadata.URL==\"\"" => some (m.url == "")
-  | "len(metadata.Capabilities)==0" => some m.capabilities.isEmpty
-  | "len(metadata.SupportedContractVersions)==0" => some m.contractVersions.isEmpty
-  | "!slices.Contains(metadata.SupportedContractVersions,plugin.ContractVersion)" =>
-      some (!m.contractVersions.contains Facts.contractVersion)
-  | _ => none
-
-/-- `validate`: the first check of the source that fires (an unknown check counts as firing) -/
+/-- `validate`: the first check that fires, in the order of the source. (Tied to the source by the
+translation of `validate` itself: `Tie.source_validate_refines_model` in Props/C17.lean.) -/
 def validateErr (m : Meta) : Option String :=
-  Facts.validateChecks.find? (fun c => checkFires m c != some false)
+  if m.name == "" then some "empty name"
+  else if m.description == "" then some "empty description"
+  else if m.version == "" then some "empty version"
+  else if m.url == "" then some "empty url"
+  else if m.capabilities.isEmpty then some "empty capabilities"
+  else if m.contractVersions.isEmpty then some "supported contract versions not specified"
+  else if !m.contractVersions.contains Facts.contractVersion then some "contract version not supported"
+  else none
 
 /-- the metadata the decoder ends up with -/
 def seenMeta (i : Input) : Meta := if i.stdout == .reply then i.metadata else Meta.empty
@@ -313,6 +309,35 @@ def decide_ (cfg : ExecCfg) (i : Input) (w : WaitOut) : Res × String :=
     | some _ => (.malformedPluginError, "")
     | none => if (seenMeta i).name != i.pluginName then (.other, "") else (.ok, "")
   else (.ok, "")
+
+/-! ### the same decision, cut along the Go functions (what the translated source is tied to in
+`Props/C17.lean`, namespace `Tie`; `decide_eq_decisions` there shows that `decide_` is their composition) -/
+
+/-- `run` after `executor.Output` has returned: `failed` = `err != nil`, `stderrEmpty` = `len(stderr) == 0`,
+`stderrDecoded` = the code of the error object if `json.Unmarshal(stderr, &re)` succeeded,
+`stdoutDecodes` = `json.Unmarshal(stdout, resp)` succeeded -/
+def runDecision (failed stderrEmpty : Bool) (stderrDecoded : Option String) (stdoutDecodes : Bool) : Res × String :=
+  if failed then
+    if stderrEmpty then (.executableFileError, "")
+    else match stderrDecoded with
+      | some code => (.pluginError, code)
+      | none => (.malformedPluginError, "")
+  else if !stdoutDecodes then (.malformedPluginError, "")
+  else (.ok, "")
+
+/-- `CLIPlugin.GetMetadata` after a successful `run`: `validate`, then the name check -/
+def metadataDecision (m : Meta) (pluginName : String) : Res × String :=
+  match validateErr m with
+  | some _ => (.malformedPluginError, "")
+  | none => if m.name != pluginName then (.other, "") else (.ok, "")
+
+/-- what the host finds on stderr: nothing at all … -/
+def seenStderrEmpty (cfg : ExecCfg) (i : Input) : Bool :=
+  !i.executable || (!over cfg.stderrLimit (effErrSize i) && i.stderr == .empty)
+/-- … or something that decodes into a complete error object with this code -/
+def seenStderrCode (cfg : ExecCfg) (i : Input) : Option String :=
+  if i.executable && !over cfg.stderrLimit (effErrSize i) && i.stderr == .errorObject && errorObjectComplete i
+  then some i.errCode else none
 
 def waitOf (cfg : ExecCfg) (i : Input) : WaitOut :=
   if i.executable then wait cfg 0 i.ctxEnd ⟨i.exitAt, i.pipesAt⟩
